@@ -19,3 +19,4 @@ import FpgoVerif.Props.C16
 #print axioms FpgoVerif.C16.C16_pmap_random
 #print axioms FpgoVerif.C16.C16_expected_obs
 #print axioms FpgoVerif.C16.C16_skeleton
+#print axioms FpgoVerif.C16.C16_driver_observable
